@@ -2,7 +2,7 @@
    KNOWN FINDING (defect D3, class TC): when a participant with own choices instructs a course the node scores are not upper
    bounds, and the score depends on the schedule (C03_refuted, two recorded histories replayed inside Coq). *)
 From Coq Require Import List ZArith Lia Bool Arith.
-Require Import HP1 Cao1 Cao3 Score1 Cov1 Rooms Spec Valid Node NodeThms NodeWf Solve D3Witness CorrSolve.
+Require Import HP1 Cao1 Cao3 Score1 Cov1 Rooms Spec Valid Node NodeThms NodeWf Solve D3Witness CorrSolve NoPanic RoomSites WfPres Mono3.
 Require EngP2 EngExec Tree C01 C02 C08.
 Import ListNotations.
 Open Scope nat_scope.
@@ -58,6 +58,30 @@ Proof.
   - split; [tauto|]. intros H. contradiction.
 Qed.
 
+(* caobab::solve WITH OR WITHOUT a room list, outside the class TC: the subproblem tree (room constraint sets included) is bound
+   consistent (a child never scores higher than its parent: its optimal matching extends to a matching of the parent), no generated
+   subproblem panics (C10), so the generic theorem applies: same verdict and same score for every worker count and interleaving.
+   Hypotheses: validity, not TC, FloatSane (decidable, see C10), the matching routine never reports Overflow, scores within Score. *)
+Theorem C03_rooms_noTC : forall courses parts esize shrinkf rooms smin smax k1 st1 k2 st2,
+  Valid courses parts -> in_tc courses parts = false -> FloatSane courses esize shrinkf rooms ->
+  (forall nd, run_full courses parts esize shrinkf rooms nd <> HOverflow) ->
+  (forall a, (score_of courses parts a <= smax)%Z) ->
+  SReach courses parts esize shrinkf rooms smin smax k1 st1 -> 0 < k1 -> C02.final st1 ->
+  SReach courses parts esize shrinkf rooms smin smax k2 st2 -> 0 < k2 -> C02.final st2 ->
+  (EngP2.best node assignment st1 = None <-> EngP2.best node assignment st2 = None) /\
+  (EngP2.best node assignment st1 <> None -> EngP2.bscore node assignment st1 = EngP2.bscore node assignment st2).
+Proof.
+  intros courses parts esize shrinkf rooms smin smax k1 st1 k2 st2 V Htc FS Hov Hr R1 K1 F1 R2 K2 F2.
+  refine (C03_engine node assignment (f_full courses parts esize shrinkf rooms) root smin smax
+           (tree_bound_consistent courses parts esize shrinkf rooms V FS Htc) _ _ k1 st1 k2 st2 R1 K1 F1 R2 K2 F2).
+  - intros n Hn Hf. pose proof (below_wf2 courses parts esize shrinkf rooms V FS root n (wf2_root courses) Hn) as Hwf.
+    unfold f_full in Hf. destruct (run_full courses parts esize shrinkf rooms n) as [[| |]|site|] eqn:E; try discriminate.
+    + apply (run_panic_sites courses parts _ _ (valid_one _ _ V) (v_minmax _ _ V) (fun _ => False) (fun s' Hs => match Hs with end)
+               (fun nd' a s' Hp => room_gate_no_site courses esize shrinkf rooms nd' a s' FS Hp) n site (wf2_wf courses n Hwf) E).
+    + apply (Hov n E).
+  - intros n x s _ Hf. apply to_eng_feas in Hf. rewrite (C08.C08_score_node courses parts esize shrinkf rooms n x s V Hf). apply Hr.
+Qed.
+
 (* (d3_f = f_full d3_courses d3_parts _ _ None: the node function of the instance without rooms) *)
 (* the defect D3 on the faithful model: a valid instance of class TC and two runs of the search (1 and 2 workers) that end with all
    workers done and different scores *)
@@ -74,7 +98,8 @@ Proof.
   split; [exact R2|]. split; [exact (EngExec.all_done_spec node assignment st2 D2)|]. rewrite S1, S2. discriminate.
 Qed.
 
-Check C03_engine. Check C03_noTC. Check C03_refuted.
+Check C03_engine. Check C03_noTC. Check C03_rooms_noTC. Check C03_refuted.
 Print Assumptions C03_engine.
 Print Assumptions C03_noTC.
+Print Assumptions C03_rooms_noTC.
 Print Assumptions C03_refuted.
